@@ -96,6 +96,7 @@ func TestC20(t *testing.T) {
 
 // TestC20Fixed measures the fixed families (shard 0 only).
 func TestC20Fixed(t *testing.T) {
+	tierOverride = os.Getenv("VERIF_TIER_NAME")
 	if os.Getenv("VERIF_SHARD") != "" && os.Getenv("VERIF_SHARD") != "0" {
 		t.Skip("enumerations run in shard 0")
 	}
